@@ -3,6 +3,7 @@ use crate::util::Out;
 use serde_json::{json, Value};
 
 pub mod framing;
+pub mod status;
 
 /// Shared event recorder so that events survive a panic or hang of the run.
 #[derive(Clone, Default)]
@@ -18,6 +19,7 @@ pub fn gen(lab: &str, seed: u64, tier: &str) -> Vec<Value> {
         "framing" => framing::gen(seed, tier),
         "framing_hostile" => framing::gen_hostile(seed, tier),
         "framing_limits" => framing::gen_limits(seed, tier),
+        "status" => status::gen(seed, tier),
         _ => { eprintln!("unknown lab {lab}"); std::process::exit(2) }
     }
 }
@@ -25,6 +27,7 @@ pub fn gen(lab: &str, seed: u64, tier: &str) -> Vec<Value> {
 fn run_one(lab: &str, stim: &Value, rec: &Rec) {
     match lab {
         "framing" | "framing_hostile" | "framing_limits" => framing::run(stim, rec),
+        "status" => status::run(stim, rec),
         _ => { eprintln!("unknown lab {lab}"); std::process::exit(2) }
     }
 }
